@@ -41,6 +41,24 @@ use std::time::{Duration, Instant, SystemTime, UNIX_EPOCH};
 use tokio::sync::Mutex;
 use tokio::time::interval;
 
+// File I/O of this module. With `verif-hooks` it runs inline instead of on tokio's
+// blocking pool, whose completion order is not under the simulator's control.
+#[cfg(not(feature = "verif-hooks"))]
+use tokio::fs as afs;
+#[cfg(feature = "verif-hooks")]
+mod afs {
+    use std::path::Path;
+    pub async fn create_dir_all(path: impl AsRef<Path>) -> std::io::Result<()> {
+        std::fs::create_dir_all(path)
+    }
+    pub async fn read(path: impl AsRef<Path>) -> std::io::Result<Vec<u8>> {
+        std::fs::read(path)
+    }
+    pub async fn write(path: impl AsRef<Path>, data: impl AsRef<[u8]>) -> std::io::Result<()> {
+        std::fs::write(path, data)
+    }
+}
+
 /// Maximum number of sequence numbers to remember per peer
 const MAX_SEQUENCE_HISTORY: usize = 1000;
 
@@ -163,7 +181,7 @@ impl MonotonicCounterSystem {
     ) -> Result<Self> {
         // Ensure storage directory exists
         if let Some(parent) = storage_path.parent() {
-            tokio::fs::create_dir_all(parent).await.map_err(|e| {
+            afs::create_dir_all(parent).await.map_err(|e| {
                 P2PError::Storage(StorageError::Database(
                     format!("Failed to create storage directory: {e}").into(),
                 ))
@@ -412,7 +430,7 @@ impl MonotonicCounterSystem {
             return Ok(HashMap::new());
         }
 
-        let data = tokio::fs::read(storage_path).await.map_err(|e| {
+        let data = afs::read(storage_path).await.map_err(|e| {
             P2PError::Storage(StorageError::Database(
                 format!("Failed to read counters file: {e}").into(),
             ))
@@ -448,7 +466,7 @@ impl MonotonicCounterSystem {
             ))
         })?;
 
-        tokio::fs::write(storage_path, data).await.map_err(|e| {
+        afs::write(storage_path, data).await.map_err(|e| {
             P2PError::Storage(StorageError::Database(
                 format!("Failed to write counters file: {e}").into(),
             ))
